@@ -350,6 +350,11 @@ func scanAliasHaz(c *core.Ctx) []ob {
 								e.reads = append(e.reads, comps...)
 							}
 						}
+						// a helper that receives the receiver alone (it resizes it, hands out a view of it) moves no
+						// data from an operand into it
+						if len(e.reads) == 0 {
+							e.writes = nil
+						}
 					}
 				}
 				// function-valued operation parameters: evaluate(a, b, out) / evaluate(a, r, out)
